@@ -58,7 +58,7 @@ def run_scenario(args):
         w = World(prog, spec['scen'], cap=spec.get('cap', 3)); w.build()
         sol = IncSolver(per_check_ms=3000)
         w.m.pruner = sol
-        w.run(R=spec['R'], B=spec['B'], order=spec.get('order'))
+        w.run(R=spec['R'], B=spec['B'], order=spec.get('order'), seq=spec.get('seq'))
         out['encode_s'] = round(time.time() - t0, 2)
         out['stats'] = dict(nodes=nodes(), steps=w.m.stats['steps'], blocks=w.m.stats['blocks'], stmts=w.m.stats['stmts'],
                             sites=len(w.m.stats['sites']), pruned=w.m.stats.get('pruned', 0), prune_checks=sol.nchecks,
@@ -86,6 +86,7 @@ def run_scenario(args):
         if spec.get('witness') == 'ungated_done':
             from .expr import Eq, ONE, ZERO
             wit = And(*[Eq(w.ghost.get('nrun%d' % o['opid'], ZERO), ONE) for o in w.ops.values() if not o.get('gated')])
+        if spec.get('witness') == 'callers_done': wit = w.allfin      # scenarios that leave a pool thread blocked on a gate for good
         r, mod = ask('witness:' + (spec.get('witness') or 'quiescent'), wit)
         if r != 'sat':
             out['status'] = 'inconclusive'; out['notes'].append('vacuous: no schedule within the bounds lets every thread finish (%s)' % r)
